@@ -10,6 +10,12 @@ TRUST = ("Trusted base: the Go type checker and go/ssa (x/tools v0.29.0) as a fa
 
 # id -> (technique, level text, level_note, design_ref)
 CLAIMED = {
+    "C19": (
+        "value-origin analysis of the flag variable and of every *cdi.Cache source/sink in the command packages + control-dependence (decoded guards) of os.Exit and of the print statements; cmd/validate loaded as its own module",
+        "Decides that the --spec-dirs variable reaches cdi.Configure of the default cache in the cobra.OnInitialize function, that every cache the subcommands query is that cache (any other queried source is reported), "
+        "that 'cdi validate' exits 1 exactly under 'cache reports errors', that cmd/validate's exit code becomes 1 exactly on a validation error of some document and is never reset, that 'inject' prints the spec it injected into only on success, and that each lister uses its library query.",
+        TRUST + "cobra/pflag behaviour assumed. Does not decide output formatting nor what the library computes.",
+        "DESIGN.md §4 C19"),
     "C11": (
         "constant evaluation of the event mask against the fsnotify package's operation bits (constant GOOS branches pruned) + CFG edge-dominance for the name filter + must-pass-through ordering in the event loop + refresh-before-read in the query methods",
         "Decides necessary structural conditions of self-convergence for all paths: the mask covers Create/Write/Remove/Rename on the analysed GOOS; names are filtered only for pure Write/Create events with the Spec extension table; "
